@@ -19,7 +19,8 @@ use crate::c04::fmt_plain;
 
 const N_EXPLICIT: usize = 10;
 const SUBDIRS: [&str; 4] = ["bin", "lib", "include", "pkgconfig"];
-const KINDS: [&str; 6] = ["absent", "dir", "file", "link->dir", "link->file", "dangling"];
+// the last two do not resolve for reasons other than "no such file": ELOOP and ENOTDIR
+const KINDS: [&str; 8] = ["absent", "dir", "file", "link->dir", "link->file", "dangling", "link->itself", "link->below-a-file"];
 
 fn is_dir_kind(k: usize) -> bool {
     k == 1 || k == 3
@@ -66,7 +67,9 @@ fn make_layer(layer: &Path, outside: &Path, assign: [usize; 4]) {
             2 => std::fs::write(&p, b"plain").unwrap(),
             3 => std::os::unix::fs::symlink(outside.join("tdir"), &p).unwrap(),
             4 => std::os::unix::fs::symlink(outside.join("tfile"), &p).unwrap(),
-            _ => std::os::unix::fs::symlink(outside.join("nowhere"), &p).unwrap(),
+            5 => std::os::unix::fs::symlink(outside.join("nowhere"), &p).unwrap(),
+            6 => std::os::unix::fs::symlink(sub, &p).unwrap(),
+            _ => std::os::unix::fs::symlink(outside.join("tfile").join(sub), &p).unwrap(),
         }
     }
 }
@@ -211,11 +214,16 @@ pub fn run(args: &Args) {
         let a: Vec<usize> = serde_json::from_value(doc["replay"]["assign"].clone()).unwrap();
         assigns.push([a[0], a[1], a[2], a[3]]);
     } else {
-        for a in 0..6 {
-            for b in 0..6 {
-                for c in 0..6 {
-                    for d in 0..6 {
-                        assigns.push([a, b, c, d]);
+        // quick: all 6^4 assignments of the first six kinds plus all 4^4 over {absent, dir, ELOOP, ENOTDIR};
+        // thorough: all 8^4
+        for a in 0..8 {
+            for b in 0..8 {
+                for c in 0..8 {
+                    for d in 0..8 {
+                        let x = [a, b, c, d];
+                        if args.thorough() || x.iter().all(|k| *k < 6) || x.iter().all(|k| [0, 1, 6, 7].contains(k)) {
+                            assigns.push(x);
+                        }
                     }
                 }
             }
@@ -241,7 +249,7 @@ pub fn run(args: &Args) {
     rep.cov("fixpoint_cycles_run", fix);
     rep.cov("distinct_nontrivial", outcomes.len() as u64);
     rep.cov("distinct_outcomes", outcomes.len() as u64);
-    rep.cov("rule", "all 6^4 assignments of {absent, dir, file, symlink->dir, symlink->file, dangling symlink} to bin/lib/include/pkgconfig x 10 explicit envs (two with a non-empty per-process directory, three whose value is exactly the layer's own bin/lib path) on the same variables x 3 start envs (unset, set, empty) x 4 query scopes, each read by the real read_from_layer_dir and compared with the reference; per assignment x explicit env, read->write cycles by 4 routes (LayerEnv, cached_layer keep+read_env/write_env, handle_layer Keep, handle_layer Update with the default impl) must leave the env directories unchanged. distinct_nontrivial = distinct (scope, resulting environment) outcomes with the scratch path normalised");
+    rep.cov("rule", "all 6^4 assignments of {absent, dir, file, symlink->dir, symlink->file, dangling symlink} to bin/lib/include/pkgconfig, plus two kinds that fail to resolve with ELOOP / ENOTDIR (quick: all 4^4 over {absent, dir, ELOOP, ENOTDIR}; thorough: all 8^4) x 10 explicit envs (two with a non-empty per-process directory, three whose value is exactly the layer's own bin/lib path) on the same variables x 3 start envs (unset, set, empty) x 4 query scopes, each read by the real read_from_layer_dir and compared with the reference; per assignment x explicit env, read->write cycles by 4 routes (LayerEnv, cached_layer keep+read_env/write_env, handle_layer Keep, handle_layer Update with the default impl) must leave the env directories unchanged. distinct_nontrivial = distinct (scope, resulting environment) outcomes with the scratch path normalised");
     rep.cov("bound", json!({"assignments": assigns.len(), "explicit_envs": 10, "start_envs": 3, "scopes": 4, "cycles": cycles, "routes": 4}));
     rep.cov("exhaustive", true);
     rep.sample(json!({"assignment": {"bin": "link->dir", "lib": "file", "include": "dir", "pkgconfig": "dangling"}, "explicit": "PATH append+delim in build", "scope": "Build", "start": "all five variables set"}));
